@@ -645,7 +645,71 @@ def c19(tier, seed):
     return out
 
 
+# ------------------------------------------------------------------------------------------------
+# C04 / C05
+# ------------------------------------------------------------------------------------------------
+
+def c04_e2e(prop):
+    out = []
+    for kind in ("s", "d"):
+        tname = "LutN" if kind == "s" else "Lut"
+        for grp, nmax in (("p", 4), ("n", 4), ("npn", 3)):
+            for n in range(0, nmax + 1):
+                fam = fam_name(kind, n)
+                heavy = (n == nmax)
+                q = ((kind == "s") or n in (0, 1, 2)) and not (grp == "npn" and n == 3)
+                out.append(spec("verif_c04", "c04.rs", "c04_%s" % grp, "c04_%s_%s" % (grp, fam), [fam], 36,
+                                tier="quick" if q else "thorough", n=n, fam=fam, mem=3 if heavy else 1,
+                                timeout=3000, role="e2e_%s" % grp,
+                                covers={"reached": "SATISFIED", "input already canonical": "SATISFIED",
+                                        "input not canonical": "SATISFIED" if (n >= 1 or grp != "p") and not (grp == "p" and n < 2) else "UNSAT"},
+                                what="%s_canonization on %s n=%d, symbolic f: terminates; result <= g.f for a symbolic group element g (orbit lower bound); result is a member of the orbit (witness by concrete enumeration of the group, independent of the certificate); returned (perm, mask) is a valid certificate mapping f to the result, also when f is already canonical" % (grp, tname, n)))
+    return out
+
+
+STUB_CMP = "#[kani::stub(crate::operations::cmp, crate::verif_k04::s_cmp)]"
+
+
+def c04_stubbed(prop):
+    """Quick-tier end-to-end harnesses at the largest sizes with operations::cmp replaced by the lean
+    stand-in (kernel level: stubbing names a private function) + the equivalence lemma."""
+    out = []
+    for (grp, kind, n) in (("npn", "s", 3), ("npn", "d", 3), ("p", "d", 4), ("n", "d", 4)):
+        fam = fam_name(kind, n)
+        s = spec("verif_k04", "c04.rs+k04.rs", "c04_%s" % grp, "c04_%s_stub_%s" % (grp, fam), [fam], 36,
+                 tier="quick", n=n, fam=fam, mem=3, timeout=3000, level="kernel", stubbing=True, role="e2e_%s" % grp,
+                 covers={"reached": "SATISFIED", "input already canonical": "SATISFIED", "input not canonical": "SATISFIED"},
+                 what="%s_canonization on %s n=%d with operations::cmp replaced by the index-loop stand-in s_cmp (equivalence lemma k04_cmp_equiv): orbit lower bound, membership, certificate (see the unstubbed harness of the same name in the thorough tier)" % (grp, "LutN" if kind == "s" else "Lut", n))
+        s["inst"] = "c04_%s!(%s c04_%s_stub_%s, %s, 36);" % (grp, STUB_CMP, grp, fam, fam)
+        out.append(s)
+    for t in (1, 2, 4):
+        out.append(spec("verif_k04", "c04.rs+k04.rs", "k04_cmp_equiv", "k04_cmp_equiv_%d" % t, [t], 8 * t + 3,
+                        tier="quick", n=None, fam="kernel", level="kernel",
+                        covers={"reached": "SATISFIED", "less": "SATISFIED"},
+                        what="equivalence lemma: operations::cmp(a, b) == s_cmp(a, b) for arbitrary %d-word slices" % t))
+    return out
+
+
+def c04(tier, seed):
+    out = c04_e2e("C04") + c04_stubbed("C04")
+    for n in range(0, 4):
+        fam = "s%d" % n
+        out.append(spec("verif_c04", "c04.rs", "c04_idem", "c04_idem_%s" % fam, [fam], 36,
+                        tier="quick" if n <= 2 else "thorough", n=n, fam=fam, mem=3 if n == 3 else 1, timeout=3000,
+                        optional=(n == 3),
+                        covers={"reached": "SATISFIED", "npn arm": "SATISFIED"},
+                        what="LutN n=%d: canonizing a representative returns it unchanged and every function of the orbit (symbolic group element) gets the same representative, for P, N and NPN" % n))
+    return out
+
+
+def c05(tier, seed):
+    out = c04_e2e("C05") + c04_stubbed("C05")
+    return out
+
+
 PROPS = {
+    "C04": c04,
+    "C05": c05,
     "C19": c19,
     "C15": c15,
     "C13": c13,
